@@ -9,7 +9,6 @@ package patchvalidator
 import (
 	"errors"
 	"fmt"
-	"net/url"
 	"regexp"
 	"strings"
 
@@ -330,18 +329,9 @@ func validateURI(uri string) error {
 		return errors.New("service endpoint URI is empty")
 	}
 
-	u, err := url.ParseRequestURI(uri)
-	if err != nil {
-		return fmt.Errorf("service endpoint '%s' is not a valid URI: %s", uri, err.Error())
-	}
-
-	// ParseRequestURI parses an HTTP request target: it also accepts '*' and paths without a scheme, and (like
-	// the rest of net/url) characters that RFC 3986 does not allow in a URI, or not where they stand (brackets
-	// outside an IP literal, '@' inside the user information or host, a port that is not a number)
-	if !u.IsAbs() {
-		return fmt.Errorf("service endpoint '%s' is not a valid URI: missing scheme", uri)
-	}
-
+	// (url.ParseRequestURI is of no use here: it parses an HTTP request target - it accepts '*' and paths without a
+	// scheme, takes a fragment behind an authority for part of the host, knows no percent-encoding in a host name -
+	// and is lax about where the delimiters of a URI may stand)
 	if !uriRegex.MatchString(uri) {
 		return fmt.Errorf("service endpoint '%s' is not a valid URI (RFC 3986)", uri)
 	}
